@@ -8,8 +8,8 @@ use poulpy_hal::{
 use poulpy_core::{
     GGSWExpandRows, GGSWFromGGLWE, GLWECopy, GLWEDecrypt, GLWENormalize, GLWEPacking, GLWERotate, GLWETrace, ScratchTakeCore,
     layouts::{
-        Dsize, GGLWE, GGLWEInfos, GGLWELayout, GGLWEPreparedToRef, GGSWInfos, GGSWToMut, GLWEAutomorphismKeyHelper, GLWEInfos,
-        GLWELayout, GLWESecretPreparedFactory, GLWEToMut, GLWEToRef, GetGaloisElement, LWEInfos, LWEToRef, Rank,
+        GGLWEInfos, GGLWELayout, GGLWEPreparedToRef, GGSWInfos, GGSWToMut, GLWEAutomorphismKeyHelper, GLWEInfos,
+        GLWELayout, GLWESecretPreparedFactory, GLWEToMut, GLWEToRef, GetGaloisElement, LWEInfos, LWEToRef,
     },
 };
 
@@ -39,6 +39,21 @@ pub trait CircuitBootstrappingExecute<BRA: BlindRotationAlgo, BE: Backend> {
         &self,
         block_size: usize,
         extension_factor: usize,
+        res_infos: &R,
+        cbt_infos: &A,
+    ) -> usize
+    where
+        R: GGSWInfos,
+        A: CircuitBootstrappingKeyInfos;
+
+    /// Returns the minimum scratch-space size (bytes) required by
+    /// [`circuit_bootstrapping_execute_to_exponent`][Self::circuit_bootstrapping_execute_to_exponent]:
+    /// the re-packing step additionally holds `2^log_domain + 1` intermediate ciphertexts.
+    fn circuit_bootstrapping_execute_to_exponent_tmp_bytes<R, A>(
+        &self,
+        block_size: usize,
+        extension_factor: usize,
+        log_domain: usize,
         res_infos: &R,
         cbt_infos: &A,
     ) -> usize
@@ -157,21 +172,22 @@ where
         R: GGSWInfos,
         A: CircuitBootstrappingKeyInfos,
     {
-        let gglwe_infos: GGLWELayout = GGLWELayout {
-            n: res_infos.n(),
-            base2k: res_infos.base2k(),
-            k: res_infos.max_k(),
-            dnum: res_infos.dnum(),
-            dsize: Dsize(1),
-            rank_in: res_infos.rank().max(Rank(1)),
-            rank_out: res_infos.rank(),
-        };
+        cbt_execute_tmp_bytes(self, block_size, extension_factor, None, res_infos, cbt_infos)
+    }
 
-        self.blind_rotation_execute_tmp_bytes(block_size, extension_factor, res_infos, &cbt_infos.brk_infos())
-            .max(self.glwe_trace_tmp_bytes(res_infos, res_infos, &cbt_infos.atk_infos()))
-            .max(self.ggsw_from_gglwe_tmp_bytes(res_infos, &cbt_infos.tsk_infos()))
-            + GLWE::<Vec<u8>>::bytes_of_from_infos(res_infos)
-            + GGLWE::bytes_of_from_infos(&gglwe_infos)
+    fn circuit_bootstrapping_execute_to_exponent_tmp_bytes<R, A>(
+        &self,
+        block_size: usize,
+        extension_factor: usize,
+        log_domain: usize,
+        res_infos: &R,
+        cbt_infos: &A,
+    ) -> usize
+    where
+        R: GGSWInfos,
+        A: CircuitBootstrappingKeyInfos,
+    {
+        cbt_execute_tmp_bytes(self, block_size, extension_factor, Some(log_domain), res_infos, cbt_infos)
     }
 
     fn circuit_bootstrapping_execute_to_constant<R, L, D>(
@@ -209,11 +225,64 @@ where
         D: DataRef,
     {
         assert!(
-            scratch.available() >= self.circuit_bootstrapping_execute_tmp_bytes(key.block_size(), extension_factor, res, key)
+            scratch.available()
+                >= self.circuit_bootstrapping_execute_to_exponent_tmp_bytes(key.block_size(), extension_factor, log_domain, res, key)
         );
 
         circuit_bootstrap_core(true, self, log_gap_out, res, lwe, log_domain, extension_factor, key, scratch);
     }
+}
+
+/// Scratch budget of [`circuit_bootstrap_core`], term by term as the routine takes it:
+/// the accumulator in the automorphism-key radix is held throughout the rotation and the row extraction; the blind
+/// rotation additionally holds its output in the BRK radix; each row is a (partial) trace of the accumulator - in
+/// exponent mode with re-packing, of `2^log_domain + 1` copies of it plus the packing; the final row expansion uses the
+/// whole scratch. All sizes follow the key layouts (the accumulators have the BRK precision, not the result's).
+fn cbt_execute_tmp_bytes<M, R, A, BRA: BlindRotationAlgo, BE: Backend>(
+    module: &M,
+    block_size: usize,
+    extension_factor: usize,
+    log_domain_exponent: Option<usize>,
+    res_infos: &R,
+    cbt_infos: &A,
+) -> usize
+where
+    M: BlindRotationExecute<BRA, BE> + GLWETrace<BE> + GLWEPacking<BE> + GLWERotate<BE> + GLWENormalize<BE> + GGSWExpandRows<BE>,
+    R: GGSWInfos,
+    A: CircuitBootstrappingKeyInfos,
+{
+    let brk = cbt_infos.brk_infos();
+    let atk = cbt_infos.atk_infos();
+    let glwe_brk = GLWELayout {
+        n: res_infos.n(),
+        base2k: brk.base2k(),
+        k: brk.max_k(),
+        rank: brk.rank(),
+    };
+    let glwe_atk = GLWELayout {
+        n: res_infos.n(),
+        base2k: atk.base2k(),
+        k: brk.max_k(),
+        rank: brk.rank(),
+    };
+    let acc_atk: usize = GLWE::<Vec<u8>>::bytes_of_from_infos(&glwe_atk);
+    let rotation: usize = GLWE::<Vec<u8>>::bytes_of_from_infos(&glwe_brk)
+        + module
+            .blind_rotation_execute_tmp_bytes(block_size, extension_factor, &glwe_brk, &brk)
+            .max(module.glwe_normalize_tmp_bytes());
+    let mut rows: usize = module
+        .glwe_trace_tmp_bytes(res_infos, &glwe_atk, &atk)
+        .max(module.glwe_rotate_tmp_bytes());
+    if let Some(log_domain) = log_domain_exponent {
+        let repack: usize = ((1usize << log_domain) + 1) * acc_atk
+            + module
+                .glwe_trace_tmp_bytes(&glwe_atk, &glwe_atk, &atk)
+                .max(module.glwe_rotate_tmp_bytes())
+                .max(module.glwe_pack_tmp_bytes(res_infos, &atk))
+                .max(module.glwe_pack_tmp_bytes(&glwe_atk, &atk));
+        rows = rows.max(repack);
+    }
+    (acc_atk + rotation.max(rows)).max(module.ggsw_expand_rows_tmp_bytes(res_infos, &cbt_infos.tsk_infos()))
 }
 
 #[allow(clippy::too_many_arguments)]
